@@ -14,6 +14,7 @@ ANCHORS = [("crates/turmoil/src/sim.rs", f) for f in ("crash", "bounce", "run_wi
     ("crates/turmoil/src/net/tcp/stream.rs", f) for f in ("drop", "connect")]
 
 K_WRITER = "WriterBlockedFullWindow"
+K_HALFOPEN = "AcceptedWhileConnectPending"
 
 HEADER = ("From TV.Lib Require Import Base.\nFrom TV.SimCore Require Import Model TokioClock Tables.\n"
           "Open Scope N_scope.\n")
@@ -180,8 +181,9 @@ def crash_oracle(case, obs):
                 sports = {p[2]: p for p in cstreams}
                 cobjs = [d for d in before["hosts"][1]["objs"] if d[0] == "stream"]
                 for port, task in FC.PEER_TASK.items():
-                    est = [d for d in cobjs if d[3] == port]
-                    sside = [p for p in before["hosts"][0]["streams"] if p[0] == port]
+                    lp = FC.task_lport(obs, task, before["hosts"][1]["starts"] - 1)
+                    est = [d for d in cobjs if d[3] == port and d[1] == lp]
+                    sside = [p for p in before["hosts"][0]["streams"] if p[0] == port and p[2] == lp]
                     if est and sside:
                         e = FC.peer_end(obs, task, before["hosts"][1]["starts"] - 1)
                         in_flight = FC.c_data_in_flight(case, obs, before["hosts"][1]["starts"] - 1, crash_time)
@@ -244,6 +246,50 @@ def crash_oracle(case, obs):
                         elif steps_between(evs, k, res[0][6]) > slack:
                             out.append(("event %d (%s n0): connect #%d queued at port 9001 was refused only %d steps later" % (
                                 k, name, e[4], steps_between(evs, k, res[0][6])), None))
+        # --- mirrored roles: the server (accepting side) is the peer of a crashed / bounced client ----
+        if 1 in victims and before["hosts"][1]["running"] and 0 not in victims and before["hosts"][0]["running"]:
+            later_server_fault = any(kk > k and 0 in vv for (kk, _, vv, _, _, _) in faults)
+            steps_after = sum(1 for e in evs[k + 1:] if e["k"] == "step")
+            if not later_server_fault and steps_after >= slack + 3:
+                sinc = before["hosts"][0]["starts"] - 1
+                cstreams = before["hosts"][1]["streams"]
+                # the writer parked on the full window of the client that never reads (port 9005)
+                for x in log:
+                    if not (x[0] == 0 and x[1] == sinc and x[2] == "push" and x[3] == "accepted" and x[6] < k):
+                        continue
+                    rp = x[4]
+                    if [9005, 1, rp] not in before["hosts"][0]["streams"] or [rp, 0, 9005] not in cstreams:
+                        continue
+                    in_flight = crash_time < FC.delivered_by(case, x[7])
+                    end = [y for y in log if y[0] == 0 and y[1] == sinc and y[2] == "push" and y[3] == "end" and y[5] == rp]
+                    klass = K_WRITER if in_flight else None
+                    if not end:
+                        out.append(("event %d (%s n1): the server task writing to the stream accepted from n1 port %d (a client that never "
+                                    "reads, window of %d segments) is still blocked in write_all at the end of the run" % (
+                                        k, name, rp, case["cfg"].get("tcp_capacity", 64)), klass))
+                    elif end[0][6] > k and steps_between(evs, k, end[0][6]) > slack + 1:
+                        out.append(("event %d (%s n1): the server task writing to the stream accepted from n1 port %d was unblocked only %d steps later" % (
+                            k, name, rp, steps_between(evs, k, end[0][6])), klass))
+                    elif end[0][4] not in ("BrokenPipe", "ConnectionReset"):
+                        out.append(("event %d (%s n1): the server task writing to n1 port %d ended with %s" % (k, name, rp, end[0][4]), None))
+                # the readers on accepted streams (echo connection, reader half of the split stream) see the end
+                last = None
+                for e in evs[k + 1:]:
+                    for key in ("after", "snap"):
+                        if isinstance(e.get(key), dict):
+                            last = e[key]
+                if last is not None:
+                    for d in before["hosts"][0]["objs"]:
+                        if d[0] == "stream" and d[2] == 1 and [d[3], 0, d[1]] in cstreams and (
+                                (d[1] == 9000 and d[4] == "whole") or (d[1] == 9003 and d[4] == "read")):
+                            if d in last["hosts"][0]["objs"]:
+                                # the client's end: a TcpStream object, or only the table entry of a connect() that has
+                                # not returned yet (the server accepted in the last step, the client was not polled since)
+                                cobj = any(x[0] == "stream" and x[1:4] == [d[3], 0, d[1]] for x in before["hosts"][1]["objs"])
+                                out.append(("event %d (%s n1): the server task reading the stream accepted on port %d from n1 port %d still "
+                                            "holds it at the end of the run (never saw EOF / reset)%s" % (
+                                                k, name, d[1], d[3], "" if cobj else "; the client's connect() had not returned yet (ConnectGuard)"),
+                                            None if cobj else K_HALFOPEN))
     # --- while down: no effect attributable to the host ---------------------------------------
     # replies to datagrams the client sent after the server went down
     down = None
